@@ -158,7 +158,7 @@ impl NameVolume {
                         match cmd {
                             Cmd::Go(k) => {
                                 let mut names = Vec::with_capacity(k);
-                                for _ in 0..k { names.push(simple_sds::serialize::temp_file_name(&part).to_string_lossy().into_owned()); }
+                                for _ in 0..k { names.push(simple_sds::serialize::temp_file_name(&part).to_string_lossy().into_owned()); crate::core::progress(); }
                                 if !guard_first { install(&part); }
                                 if res_tx.send(names).is_err() { break; }
                             },
